@@ -42,6 +42,9 @@ func (g *G) strFrag() string {
 	}
 	return g.pick("s0", "s1", `"lit"`, "s0 + s1", `f2("é", s0)`)
 }
+// fmtFrag: a string fragment for use after a format verb (never the loop variable: the model binds only `x`)
+func (g *G) fmtFrag() string { return g.pick("s0", "s1", `"lit"`, `f2("é", s0)`) }
+
 func (g *G) boolFrag() string { return g.pick("b0", "b1", "!b0", "!b1", "b0 && b1", "n0 > 1") }
 
 func (g *G) staticText() string {
@@ -65,10 +68,18 @@ func (g *G) textParts() []Part {
 		case 3:
 			ps = append(ps, Part{Expr: g.strFrag()})
 		case 4:
-			if g.chance(2) {
+			switch g.R.Intn(4) {
+			case 0:
 				ps = append(ps, Part{Expr: "n0", Verb: "%d"})
-			} else {
-				ps = append(ps, Part{Expr: g.strFrag(), Verb: g.pick("%s", "%q", "%5s")})
+			case 1:
+				// a variable named like the verb letter
+				if g.chance(2) {
+					ps = append(ps, Part{Expr: "d", Verb: "%d"})
+				} else {
+					ps = append(ps, Part{Expr: "v", Verb: "%v"})
+				}
+			default:
+				ps = append(ps, Part{Expr: g.fmtFrag(), Verb: g.pick("%s", "%q", "%5s")})
 			}
 		case 5:
 			ps = append(ps, Part{EscHash: true, Static: "no"})
@@ -116,6 +127,12 @@ func (g *G) attrs(n *Node) {
 		case 2:
 			a.Kind = ADynamic
 			a.Expr, a.Verb = "n0", "%d"
+			if g.chance(3) {
+				a.Expr, a.Verb = g.pick("d", `f2("é", s0)`), "%d"
+				if a.Expr != "d" {
+					a.Verb = "%s"
+				}
+			}
 		case 3:
 			a.Kind = ABool
 		case 4:
@@ -178,6 +195,12 @@ func (g *G) inline() *Node {
 	case 2:
 		return &Node{Kind: KScript, Expr: g.strFrag(), Unescaped: true}
 	default:
+		switch g.R.Intn(4) {
+		case 0:
+			return &Node{Kind: KScript, Expr: g.fmtFrag(), Verb: g.pick("%s", "%q")}
+		case 1:
+			return &Node{Kind: KScript, Expr: "v", Verb: "%v"}
+		}
 		return &Node{Kind: KScript, Expr: "n0", Verb: "%d"}
 	}
 }
@@ -216,6 +239,8 @@ func (g *G) Block(depth int) []*Node {
 			s := &Node{Kind: KScript, Expr: g.strFrag(), Unescaped: g.chance(3)}
 			if g.chance(4) {
 				s.Expr, s.Verb, s.Unescaped = "n0", "%d", false
+			} else if g.chance(5) {
+				s.Expr, s.Verb = g.fmtFrag(), g.pick("%s", "%q", "%v")
 			}
 			out = append(out, s)
 		case 4:
